@@ -52,6 +52,15 @@ deriving DecidableEq, Repr
 def Err.str : Err → String
   | .dup => "dup" | .already => "already" | .pending => "pending" | .unfin => "unfin" | .anc => "anc"
 
+/-- result class of an operation -/
+inductive Res where
+  | ok | eParent | eDigest (e : Err) | eForced (e : Err) | eFin | okSched (e : Err)
+deriving DecidableEq, Repr
+
+def Res.str : Res → String
+  | .ok => "ok" | .eParent => "e-parent" | .eDigest e => "e-digest:" ++ e.str | .eForced e => "e-forced:" ++ e.str
+  | .eFin => "e-fin" | .okSched e => "ok+e-sched:" ++ e.str
+
 /-- Go `pendingChangeNode` -/
 inductive Node where
   | mk (c : Ann) (kids : List Node)
@@ -122,30 +131,33 @@ def forcedPrune (isD : IsD) (h : Nat) : List Ann → Except Err (List Ann)
 
 /-! ### changeTree (scheduled changes) -/
 
-/-- `pendingChangeNode.importNode` on every node of a slice in order (`importKids`), first `imported` wins -/
+mutual
+/-- `pendingChangeNode.importNode`: `none` = not imported here, `some n'` = the node after taking the change -/
+def importNode (t : Tree) (isD : IsD) (pc : Ann) : Node → Except Err (Option Node)
+  | .mk c kids =>
+    if pc.blk = c.blk then .error .dup
+    else match isD c.blk pc.blk with
+      | none => .error .anc
+      | some false => .ok none
+      | some true =>
+        if num t pc.blk ≤ num t c.blk then .ok none
+        else match importKids t isD pc kids with
+          | .error e => .error e
+          | .ok (some kids') => .ok (some (.mk c kids'))
+          | .ok none => .ok (some (.mk c (kids ++ [.mk pc []])))
+/-- `importNode` on every node of a slice in order, the first `imported` wins -/
 def importKids (t : Tree) (isD : IsD) (pc : Ann) : List Node → Except Err (Option (List Node))
   | [] => .ok none
-  | .mk c kids :: rest =>
-    -- importNode on `.mk c kids`
-    let here : Except Err (Option Node) :=
-      if pc.blk = c.blk then .error .dup
-      else match isD c.blk pc.blk with
-        | none => .error .anc
-        | some false => .ok none
-        | some true =>
-          if num t pc.blk ≤ num t c.blk then .ok none
-          else match importKids t isD pc kids with
-            | .error e => .error e
-            | .ok (some kids') => .ok (some (.mk c kids'))
-            | .ok none => .ok (some (.mk c (kids ++ [.mk pc []])))
-    match here with
+  | n :: rest =>
+    match importNode t isD pc n with
     | .error e => .error e
     | .ok (some n') => .ok (some (n' :: rest))
     | .ok none =>
       match importKids t isD pc rest with
       | .error e => .error e
-      | .ok (some rest') => .ok (some (.mk c kids :: rest'))
+      | .ok (some rest') => .ok (some (n :: rest'))
       | .ok none => .ok none
+end
 
 /-- `changeTree.importChange` -/
 def schedImport (t : Tree) (isD : IsD) (pc : Ann) (roots : List Node) : Except Err (List Node) :=
@@ -311,17 +323,17 @@ def applyForced (t : Tree) (s : St) (b : Nat) : Except Err St :=
       .ok { s2 with forced := [], roots := [] }
 
 /-- `imp b`: Service.handleBlock = AddBlock, HandleDigests, ApplyForcedChanges -/
-def importBlock (t : Tree) (s : St) (b : Nat) : St × String :=
-  if !inBt t s (par t b) then (s, "e-parent")
+def importBlock (t : Tree) (s : St) (b : Nat) : St × Res :=
+  if !inBt t s (par t b) then (s, .eParent)
   else
     let s0 := if inBt t s b then s else { s with live := s.live ++ [b] }
     let ds := filterDigests (t.anns.filter (·.blk = b))
     match handleDigests t s0 ds with
-    | .error e => (handleDigestsPartial t s0 ds, "e-digest:" ++ e.str)
+    | .error e => (handleDigestsPartial t s0 ds, .eDigest e)
     | .ok s1 =>
       match applyForced t s1 b with
-      | .error e => (s1, "e-forced:" ++ e.str)
-      | .ok s2 => (s2, "ok")
+      | .error e => (s1, .eForced e)
+      | .ok s2 => (s2, .ok)
 
 /-- `ApplyScheduledChanges` -/
 def applyScheduled (t : Tree) (s : St) (b : Nat) : Except Err St :=
@@ -348,20 +360,20 @@ def setFinalised (t : Tree) (s : St) (b : Nat) : Option St :=
   else none
 
 /-- `fin b`: SetFinalisedHash, then (finalisation notification) ApplyScheduledChanges -/
-def finalise (t : Tree) (s : St) (b : Nat) : St × String :=
+def finalise (t : Tree) (s : St) (b : Nat) : St × Res :=
   match setFinalised t s b with
-  | none => (s, "e-fin")
+  | none => (s, .eFin)
   | some s1 =>
     match applyScheduled t s1 b with
-    | .error e => (applyScheduledPartial t s1 b, "ok+e-sched:" ++ e.str)
-    | .ok s2 => (s2, "ok")
+    | .error e => (applyScheduledPartial t s1 b, .okSched e)
+    | .ok s2 => (s2, .ok)
 
 inductive Op where
   | imp (b : Nat)
   | fin (b : Nat)
 deriving Repr, DecidableEq
 
-def step (t : Tree) (s : St) : Op → St × String
+def step (t : Tree) (s : St) : Op → St × Res
   | .imp b => importBlock t s b
   | .fin b => finalise t s b
 
@@ -384,19 +396,25 @@ def setIdAtLoop (change : List (Nat × Nat)) (n : Nat) : Nat → Nat → Option 
 
 def setIdAt (s : St) (n : Nat) : Option Nat := setIdAtLoop s.change n (s.setId + 2) s.setId
 
+/-- the condition of the forced-change lookup of `NextGrandpaAuthorityChange` -/
+def nextForcedCond (t : Tree) (s : St) (b n : Nat) (c : Ann) : Except Err Bool :=
+  match isDesc t s c.blk b with
+  | none => .error .anc
+  | some d => .ok (d && decide (eff t c ≤ n))
+
+/-- the condition of its scheduled-change lookup -/
+def nextRootCond (t : Tree) (s : St) (b n : Nat) (r : Node) : Except Err Bool :=
+  match isDesc t s r.ann.blk b with
+  | none => .error .anc
+  | some d => .ok (d && decide (eff t r.ann ≤ n))
+
 /-- `NextGrandpaAuthorityChange`: `none` = ancestry error, `some 0` = ErrNoNextAuthorityChange -/
 def nextChange (t : Tree) (s : St) (b : Nat) : Option Nat :=
   let n := num t b
-  let fc := lookupForced (fun c => match isDesc t s c.blk b with
-    | none => .error .anc
-    | some d => .ok (d && decide (eff t c ≤ n))) s.forced
-  match fc with
+  match lookupForced (nextForcedCond t s b n) s.forced with
   | .error _ => none
   | .ok f =>
-    let sc := lookupRoots (fun r => match isDesc t s r.ann.blk b with
-      | none => .error .anc
-      | some d => .ok (d && decide (eff t r.ann ≤ n))) s.roots
-    match sc with
+    match lookupRoots (nextRootCond t s b n) s.roots with
     | .error _ => none
     | .ok r =>
       let next := match r with | some r => eff t r.ann | none => 0
